@@ -248,7 +248,9 @@ CHECKS = {
                  'at every scheduling point (heartbeat never decreases, a dead worker only comes back through a '
                  'register); ownership: 2-3 pools (one of them sometimes driven by two threads) acquire and release 1-3 '
                  'shared Worker objects through acquire_by, _acquire_all, next_idle_worker, release_all; poolops: '
-                 'WorkerPool.run / call_and_wait against real servers with tasks that return or raise; distrelease: the '
+                 'WorkerPool.run / call_and_wait against real servers with tasks that return or raise, in 60% of the runs '
+                 'while workers leave (graceful goodbye, partition, restart, lost reply at the n-th call or at an '
+                 'arbitrary scheduling step; call_timeout 5 or 200 s, never 0 = wait for ever by design); distrelease: the '
                  'fault-free sharded / interleaved drivers of C16, judged only on workers being released. 60% of the '
                  'registry/ownership runs use function-entry pre-emption. Non-trivial = more than two context '
                  'switches; distinct = distinct event-log digests'),
